@@ -51,6 +51,12 @@ checks = {
  "C12": dict(cat="model_checking", eng="E-bfs", tech="explicit-state breadth-first search over call histories on the real code with a canonical dump of the hidden state (pooled runners, global pools, replacement cache, clock); every transition compared with the fresh-world result",
    text="A 33-call alphabet (all entry-point kinds on six Regexps: bool-only eligible, balancing, stack-limited, sparse numbers, a twin sharing only the global pools, a timed match that times out in virtual time; inputs crossing three buffer size classes; more replacements than the cache holds; pool events gc / rotate) is explored breadth-first with states de-duplicated by a canonical dump of the hidden state; every transition runs the real call (after replaying the shortest history to its source state on a fresh world) and must return the fresh-world result. The whole alphabet is searched to depth 3 (5 thorough); per-Regexp sub-alphabets are searched to depth 9 (12), reaching a fixpoint for several of them.",
    note="State abstraction: quick omits stack / buffer contents from the key (argued safe in DESIGN 3.5), thorough includes them. Single client thread; concurrency is C11's business. Runs on the overlay build (deterministic pool shim, virtual time).", ref="4 C12, 3.5"),
+ "C09": dict(cat="model_checking", tech="bounded-exhaustive enumeration of pattern x input x replacement string x startAt x count x direction against a reference model (independent $-grammar tokenizer, reference expansion, reference fold over the match chain)",
+   text="For every enumerated pattern (nullable / empty-match shapes, named / numbered / sparse / duplicate-name groups, balancing groups, CORE, LOOP, corpus literals), every input up to the bound (incl. multi-byte runes, 0xFF, a truncated sequence), every replacement string of up to 2 (3) tokens of the $-grammar (valid, ambiguous and literal-$ forms), every byte startAt in [-1, len+1], count in {-1,0,1,2,3} and both directions: Replace equals the reference fold of the FindNextMatch chain; ReplaceFunc with an evaluator computing the reference expansion gives the same string; $& / $0 return the input; Split equals the gaps interleaved with the groups and its gaps re-joined with the matched texts rebuild the input; bad arguments give errors, never panics. Separate legs drive the replacement cache through hits on non-front entries at cache sizes {default,0,1,2} and check that pattern-looking replacement text stays literal.",
+   note="Trusted: the reference tokenizer/expansion/fold in harness/c09.go (written from the documentation, shares no code with /repo) and the match chain itself (validated by C01/C03/C07). Split follows the conventions documented in split.go. Results are compared as decoded text where the input has invalid bytes.", ref="4 C09, 8"),
+ "C18": dict(cat="exploration", tech="bounded-exhaustive enumeration of patterns x all 32 option subsets x three spellings (compile option, leading (?O), wrapping (?O:...)) x inputs x start offsets; nested on/off groups lowered to a pushed-down tree and compared with the engine on that tree and with the reference matcher",
+   text="For every enumerated pattern (CORE-S, SEQ, ANCH, NAMED, corpus), every subset O of {i,m,s,n,x} and every base (none, RightToLeft, RE2, ECMAScript), the three spellings must agree on whether the pattern compiles, on group names/numbers and on match plus full capture lists on every input and start offset (with x, the same blank- and comment-decorated text is used for all three). Nested toggles (ten ims templates, five n templates, a five-letter mix, every sequence of <= 3 (4) items over atoms, blanks, comments, (?x)/(?-x) and groups) are lowered by the documented scoping rule (a switch lasts to the end of the enclosing group) to a tree in which every leaf carries its own absolute option group; the engine on the original text must equal the engine on the pushed-down text and the reference matcher run on that tree. 66 explicit lexical cases of x (blank before quantifiers, {1, 2}, classes, escapes, comments containing parentheses) are paired with their x-free equivalents.",
+   note="Trusted: the lowering rule in harness/c18.go and harness/spec.go. Option groups directly inside the branches of an expression conditional are not enumerated. Bounds as printed.", ref="4 C18, 8"),
  "C03": dict(cat="exploration", tech="bounded-exhaustive differential: accelerated scan vs naive scan of the same compiled program at every start offset",
    text="For every enumerated pattern (families chosen per search mode; code-gen analysis on/off; both directions) and every input and start offset, the public rune and string entry points must return exactly what the verif-only naive scan (attempt at every position, no filter, no candidate search, no cut-off) returns for the same compiled program.",
    note="Trusted: the hook VerifNaiveScan and the interpreter itself (it is common to both sides; its meaning is C01's business). Bounds as printed in the evidence.", ref="4 C03"),
